@@ -6,6 +6,7 @@ CONSTANTS
   Dev_h13 = TRUE
   Dev_ownerAbsent = TRUE
   Dev_length = FALSE
+  Dev_tableCache = TRUE
   Emit = FALSE
-INVARIANTS AuthUserSound AuthUserComplete AuthOwnerSound AuthOwnerComplete KeyAgreement NoKeyWithoutAuth Plaintext Shapes ImplDictRefines ImplKeyRefines ImplItemRefines ImplOpens ImplRejects LengthAgreement ImplLengthRefines EmitInv
+INVARIANTS AuthUserSound AuthUserComplete AuthOwnerSound AuthOwnerComplete KeyAgreement NoKeyWithoutAuth Plaintext Shapes ImplDictRefines ImplKeyRefines ImplItemRefines ImplOpens ImplRejects LengthAgreement ImplLengthRefines ImplPrepRefines PrepMatters EmitInv
 CHECK_DEADLOCK FALSE
